@@ -456,6 +456,13 @@ impl RandomDirector {
         if self.chance(0.2) {
             props.push(Prop { id: 0x26, n: 0, s: b"uk".to_vec(), t: b"uv".to_vec() });
         }
+        if self.chance(0.2) {
+            // a string property that is not the response topic
+            props.push(Prop { id: 0x03, n: 0, s: b"text/plain".to_vec(), t: vec![] });
+        }
+        if self.chance(0.1) {
+            props.push(Prop { id: 0x02, n: self.rng.gen_range(0..100000), s: vec![], t: vec![] });
+        }
         if self.chance(0.1) {
             props.push(Prop { id: 0x0B, n: self.rng.gen_range(1..300), s: vec![], t: vec![] });
         }
@@ -839,8 +846,18 @@ impl Director for RandomDirector {
             }
         }
         if self.chance(self.p.p_broker_disconnect) {
+            // every form and class of reason: none, success class, failure class, with properties
             self.broker.closed = true;
-            return PendDec::Inject(rc::disconnect(0x8B));
+            let pkt = match self.rng.gen_range(0..7) {
+                0 => vec![0xE0, 0x00],
+                1 => rc::disconnect(0x00),
+                2 => rc::disconnect(0x04),
+                3 => rc::disconnect(0x8B),
+                4 => rc::disconnect(0x8E),
+                5 => vec![0xE0, 0x02, 0x8D, 0x00],
+                _ => vec![0xE0, 0x09, 0x81, 0x07, 0x1F, 0x00, 0x04, b'g', b'o', b'n', b'e'],
+            };
+            return PendDec::Inject(pkt);
         }
         if self.p.time {
             if let Some(w) = view.wakes.first().copied() {
